@@ -148,7 +148,8 @@ func runOnce(w *Workload, plan interface{}, cfg simrt.Config) simrt.Result {
 	if w.Budget != 0 && cfg.MaxProbes == 0 {
 		cfg.MaxProbes = w.Budget
 	}
-	cfg.HB = w.HB
+	cfg.HB = true     // vector clocks + map-race detection in every workload
+	cfg.HBVars = w.HB // package-level variable monitor (C13)
 	return simrt.Run(cfg, func() { w.Run(plan) })
 }
 
